@@ -407,6 +407,43 @@ example : (∀ p ∈ [((1 : ℚ) / 4, ([([1, 0], 1)] : D)), (3 / 4, [([0, 1], 1 
   · norm_num
   · decide +kernel
 
+/-- `trim_error_bound`, `trim_error_bound_normalized`: the same two members satisfy every hypothesis at
+`θ = 1/3` (non-negative weights summing to 1, non-negative unit-mass members); the first member is
+trimmed, the kept mass is 3/4 ≠ 0 -/
+example :
+    let ms : List (ℚ × D) := [(1 / 4, [([1, 0], 1)]), (3 / 4, [([0, 1], 1 / 2), ([1, 0], 1 / 2)])]
+    (∀ p ∈ ms, 0 ≤ p.1) ∧ (∀ p ∈ ms, NonNeg p.2 ∧ mass p.2 = 1) ∧ (ms.map (·.1)).sum = 1 ∧
+    (ms.filter fun p => !decide ((1 : ℚ) / 3 < p.1)).length = 1 ∧
+    mass (mix (ms.filter fun p => decide ((1 : ℚ) / 3 < p.1))) = 3 / 4 := by
+  refine ⟨?_, ?_, ?_, ?_, ?_⟩
+  · intro p hp
+    simp only [List.mem_cons, List.not_mem_nil, or_false] at hp
+    rcases hp with rfl | rfl <;> norm_num
+  · intro p hp
+    simp only [List.mem_cons, List.not_mem_nil, or_false] at hp
+    rcases hp with rfl | rfl
+    · refine ⟨?_, by norm_num [mass]⟩
+      intro e he
+      simp only [List.mem_cons, List.not_mem_nil, or_false] at he
+      subst he; norm_num
+    · refine ⟨?_, by norm_num [mass]⟩
+      intro e he
+      simp only [List.mem_cons, List.not_mem_nil, or_false] at he
+      rcases he with rfl | rfl <;> norm_num
+  · norm_num
+  · decide +kernel
+  · decide +kernel
+
+/-- `dm_zero_columns`: the hypothesis holds e.g. for `ρ = diag(1, 0)` with `ok s ↔ s = 0` -/
+example : ∀ s : Fin 2, ¬ (s = 0) → ∀ j, (Matrix.diagonal ![(1 : GQ), 0]) s j = 0 ∧
+    (Matrix.diagonal ![(1 : GQ), 0]) j s = 0 := by
+  intro s hs j
+  have : s = 1 := by omega
+  subst this
+  constructor
+  · fin_cases j <;> simp [Matrix.diagonal]
+  · fin_cases j <;> simp [Matrix.diagonal]
+
 /-- `probs_tagged_merge_order`: a genuine permutation of two different groups -/
 example : ([[1, 0], [0, 2]] : List Fock).Perm [[0, 2], [1, 0]] := List.Perm.swap _ _ _
 
@@ -427,7 +464,10 @@ Not proved here (validated by the correspondence on every run):
 * total probability 1 for a unitary matrix (C02's `dist_sums_to_one`) — `mixture_convex` takes the
   members' unit mass as a hypothesis;
 * the internal product/amplitude thresholds of `list_tensor_product` / `_merge_sv` at a non-zero
-  precision (only the input trimming of `_preprocess_svd` is bounded by `trim_error_bound`);
+  precision (`innerTP θ`, `memberGenericθ`): only the input trimming of `_preprocess_svd` is bounded
+  by `trim_error_bound`; `memberGenericθ U 0 ≈ memberGeneric U` is not proved either — the
+  thresholded model is executed at `θ = 0` and at the default precision and compared with the code
+  (and, at `θ = 0`, with the specification inside the driver) on every case;
 * the split by photon number (`splitByN`) preserves the mixture — executed and compared only.
 -/
 
